@@ -27,7 +27,7 @@ def project(pr, prefix=""):
     nodes = []
 
     def mk(k, id_=0, t=0, d=0, m=None, e=None):
-        return {"k": k, "id": id_, "t": t, "d": d, "m": m or [], "e": e or []}
+        return {"k": k, "id": id_, "t": t, "d": d, "m": m or [], "e": e or [], "b": [], "vf": [], "mf": []}
 
     def ref(xid):
         if xid is None:
@@ -152,5 +152,7 @@ def strip_model(types):
     for t in types:
         t2 = dict(t)
         t2["m"] = [dict(m, bw=0, acc=("public" if t["k"] in ("struct", "union") else "")) for m in t["m"]]
+        for f in ("b", "vf", "mf"):
+            t2.setdefault(f, [])
         res.append(t2)
     return res
